@@ -259,6 +259,7 @@ func qInvalid(src []byte, k int) bool {
 //@ ensures quotes without offset,emitted,pending,length,invalid,frame: result0[len(dst)] == '"' && result0[len(result0)-1] == '"'
 //@ ensures body without invalid,prefix,frame: vForall(len(dst)+1, len(result0)-1, func(p int) bool { return result0[p] == qByte(src, 0, flags.Get(jsonflags.EscapeForHTML), flags.Get(jsonflags.EscapeForJS), p-len(dst)-1) })
 //@ ensures err-iff: (result1 != nil) == (qInvalid(src, 0) && !flags.Get(jsonflags.AllowInvalidUTF8))
+//@ ensures grown without offset,emitted,pending,length,invalid,prefix,frame: len(result0) >= len(dst)+2
 //@ ensures err-is: result1 == nil || result1 == ErrInvalidUTF8
 //@ ensures src-kept without offset,emitted,pending,length,invalid,prefix,frame: unchanged(src)
 //@ loop 0 invariant range: 0 <= i && i <= n && n <= len(src) && len(dst) >= len(old(dst))+1 && dst[len(old(dst))] == '"'
@@ -340,9 +341,31 @@ func numIsFloat(src []byte, n int) bool {
 //@ ensures prefix: vForall(0, len(dst), func(k int) bool { return result0[k] == old(dst[k]) })
 //@ ensures error: result2 != nil ==> sameSlice(result0, dst)
 //@ ensures range: 0 <= result1 && result1 <= len(src)
+//@ ensures length: len(result0) >= len(dst)
+//@ ensures err-type: result2 == nil || isUnexpectedEOF(result2) || isInvalidTextErr(result2)
 //@ ensures verbatim: result2 == nil && !flags.Get(jsonflags.CanonicalizeNumbers) ==> len(result0) == len(dst)+result1 && vForall(0, result1, func(k int) bool { return result0[len(dst)+k] == src[k] })
 //@ ensures minus-zero: result2 == nil && flags.Get(jsonflags.CanonicalizeNumbers) && result1 == 2 && src[0] == '-' && src[1] == '0' ==> floatText(result0, len(dst))
 //@ ensures floats: result2 == nil && flags.Get(jsonflags.CanonicalizeNumbers) && flags.Get(jsonflags.CanonicalizeRawFloats) && numIsFloat(src, result1) ==> floatText(result0, len(dst))
 //@ ensures long-ints: result2 == nil && flags.Get(jsonflags.CanonicalizeNumbers) && flags.Get(jsonflags.CanonicalizeRawInts) && !numIsFloat(src, result1) && result1 >= 16 ==> floatText(result0, len(dst))
 //@ ensures short-ints: result2 == nil && flags.Get(jsonflags.CanonicalizeNumbers) && !numIsFloat(src, result1) && result1 < 16 && !(result1 == 2 && src[0] == '-' && src[1] == '0') ==> len(result0) == len(dst)+result1 && vForall(0, result1, func(k int) bool { return result0[len(dst)+k] == src[k] })
 //@ loop 0 invariant -1 <= rangeindex && rangeindex < n && !isFloat && vForall(0, rangeindex+1, func(k int) bool { return !(src[k] == '.' || src[k] == 'e' || src[k] == 'E') })
+
+// ReformatString: thin contract (append-only, bounds, error leaves dst alone).
+//
+//@ func ReformatString
+//@ split
+//@ property C06 C11 C12 C20
+//@ requires flags != nil && distinctArrays(dst, src)
+//@ modifies dst[len(dst):cap(dst)]
+//@ ensures alias: sameOrFresh(result0, dst)
+//@ ensures length: len(result0) >= len(dst)
+//@ ensures prefix: vForall(0, len(dst), func(k int) bool { return result0[k] == old(dst[k]) })
+//@ ensures range: 0 <= result1 && result1 <= len(src)
+//@ ensures error: result2 != nil ==> sameSlice(result0, dst)
+//@ ensures err-type: result2 == nil || isUnexpectedEOF(result2) || result2 == ErrInvalidUTF8 || isInvalidTextErr(result2)
+//@ ensures ok-len: result2 == nil ==> result1 >= 2
+//@ ensures src-kept: unchanged(src)
+//@ loop 0 invariant range: 0 <= lastAppendIndex && lastAppendIndex <= i && i <= n && n <= len(src) && len(dst) >= len(old(dst))
+//@ loop 0 invariant alias: sameOrFresh(dst, old(dst)) && distinctArrays(dst, src)
+//@ loop 0 invariant prefix: vForall(0, len(old(dst)), func(k int) bool { return dst[k] == old(dst[k]) })
+//@ loop 0 invariant src-kept: unchanged(src)
